@@ -151,6 +151,13 @@ std::string Universe::apply(const J &c)
         held.erase(c["x"].str());
         return "ok";
     }
+    if (e == "clean") {
+        if (!model) {
+            return "unknown-command";
+        }
+        model->clean();
+        return "ok";
+    }
     if (e == "addEquiv") {
         return yn(Variable::addEquivalence(asV(X), asV(Y)));
     }
@@ -272,6 +279,11 @@ std::string Universe::apply(const J &c)
 static void objmodel(const J &sc, Emitter &out)
 {
     Universe u(sc["wide"].boolean(false));
+    for (auto &n : sc["nameless"].a) { // entities without a name (Model::clean() scenarios, specs/ObjectModel/MC_F.cfg)
+        if (auto ne = std::dynamic_pointer_cast<NamedEntity>(u.get(n.str()))) {
+            ne->setName("");
+        }
+    }
     for (auto &c : sc["cmds"].a) {
         std::string r = u.apply(c);
         J ev = J::obj();
